@@ -97,6 +97,9 @@ def w3_pred(sc, tree, ph, txt):
 
 def signature_pred(sc, tree, ph, txt):
     if sc.outcome == "raise":
+        cls = getattr(sc.value, "cls", None)
+        if isinstance(cls, type) and issubclass(cls, TemplateSyntaxError):
+            return []  # self.fail(...): a TemplateAssertionError is an allowed outcome of compiling
         return [f"raises {sc.value!r}"]
     flags = [c for c in sc.pc if "is_python_keyword" in str(c)]
     flag_terms = set()
